@@ -597,6 +597,28 @@ func protoOracle(ops, impl []string, which string) string {
 					}
 				}
 			}
+			// C03/C04: a node that follows term T holds nothing but (a prefix of) what the leader of T holds
+			if want("C03") || want("C04") {
+				for l := range st {
+					if st[l].ctrl != "L" || st[l].status != "leader" {
+						continue
+					}
+					for fo := range st {
+						if fo == l || st[fo].term != st[l].term || st[fo].ctrl != "F" || st[fo].status != "follower" {
+							continue
+						}
+						for k := 0; k < len(st[fo].log); k++ {
+							if k >= len(st[l].log) || st[fo].log[k] != st[l].log[k] {
+								lh := "nothing"
+								if k < len(st[l].log) {
+									lh = st[l].log[k]
+								}
+								return fmt.Sprintf("op %d: n%d follows term %d but holds %s at offset %d where the leader n%d of that term holds %s: it took entries on behalf of another term", i, fo, st[l].term, st[fo].log[k], k, l, lh)
+							}
+						}
+					}
+				}
+			}
 			nLeaders := map[int]int{}
 			for n, s := range st {
 				if s.ctrl == "L" && s.status == "leader" {
